@@ -251,25 +251,42 @@ fn emit_c12(w: &mut dyn Write, id: &str, label: &str, m: &Machine, crafted: Opti
     if let Some(c) = crafted {
         let _ = writeln!(w, "o enc {}", if c == bytes.as_slice() { "ok" } else { "DIFF" });
     }
-    let v = catch_unwind(AssertUnwindSafe(|| m.validate()));
-    let _ = writeln!(w, "o validate {}", match &v { Ok(r) => okerr(r), Err(_) => "panic" });
-    let n = catch_unwind(AssertUnwindSafe(|| {
-        Machine::new(m.allowed_padding_packets, m.max_padding_frac, m.allowed_blocked_microsec, m.max_blocking_frac, m.states.clone())
-    }));
-    let _ = writeln!(w, "o new {}", match &n { Ok(r) => okerr(r), Err(_) => "panic" });
-    let f = catch_unwind(AssertUnwindSafe(|| {
-        let s = m.serialize();
-        Machine::from_str(&s).map(|m2| machine_bytes(&m2))
-    }));
-    let _ = writeln!(
-        w,
-        "o fromstr {}",
-        match &f {
-            Ok(Ok(b2)) => if *b2 == bytes { "ok" } else { "ok-differs" },
+    // validate / new / from_str on a watchdog thread: a hang in any of them must be a result,
+    // not a stuck check
+    let mv = m.clone();
+    let by = bytes.clone();
+    let three = with_watchdog(5000, move || {
+        let v = catch_unwind(AssertUnwindSafe(|| mv.validate()));
+        let v = match &v { Ok(r) => okerr(r), Err(_) => "panic" };
+        let n = catch_unwind(AssertUnwindSafe(|| {
+            Machine::new(mv.allowed_padding_packets, mv.max_padding_frac, mv.allowed_blocked_microsec, mv.max_blocking_frac, mv.states.clone())
+        }));
+        let n = match &n { Ok(r) => okerr(r), Err(_) => "panic" };
+        let f = catch_unwind(AssertUnwindSafe(|| {
+            let s = mv.serialize();
+            Machine::from_str(&s).map(|m2| machine_bytes(&m2))
+        }));
+        let f = match &f {
+            Ok(Ok(b2)) => if *b2 == by { "ok" } else { "ok-differs" },
             Ok(Err(_)) => "err",
             Err(_) => "panic",
-        }
-    );
+        };
+        (v, n, f)
+    });
+    let (v, n, f) = match three {
+        Outcome::Done(x) => x,
+        Outcome::Panic => ("panic", "panic", "panic"),
+        Outcome::Hang => ("hang", "hang", "hang"),
+    };
+    let _ = writeln!(w, "o validate {}", v);
+    let _ = writeln!(w, "o new {}", n);
+    let _ = writeln!(w, "o fromstr {}", f);
+    if v == "hang" {
+        // Framework::new validates too; do not leave a second spinning thread behind
+        let _ = writeln!(w, "o fwnew hang");
+        let _ = writeln!(w, "end");
+        return;
+    }
     let mc = m.clone();
     let r = with_watchdog(5000, move || {
         Framework::new(vec![mc], fp, fb, VInstant(0), ScriptRng::new(7, 0)).map(|_| ())
@@ -703,24 +720,42 @@ fn emit_c13(w: &mut dyn Write, id: &str, label: &str, d: Dist, pk: &str, k: usiz
     let _ = writeln!(w, "d {}", hex(&{ let b: Vec<u8> = bc!(&d); b }));
     let _ = writeln!(w, "orc 0 0");
     let _ = writeln!(w, "sample {} {} {}", pk, k, seed);
-    let v = d.validate().is_ok();
-    let _ = writeln!(w, "o validate {}", if v { "ok" } else { "err" });
-    if !v {
-        // the property is about validated distributions only
-        let _ = writeln!(w, "o res skipped");
-        let _ = writeln!(w, "end");
-        return;
-    }
     let prefix = prefix_words(pk, k);
+    // validation and sampling both run on the watchdog thread: `Dist::validate` calls the
+    // rand_distr constructors, which contain loops of their own
     let r = with_watchdog(wd, move || {
+        if d.validate().is_err() {
+            return None;
+        }
         maybenot::verif::enable(true);
         let _ = maybenot::verif::take();
         let mut rng = LogRng { prefix, pos: 0, fair: Prng::new(seed), log: vec![], total: 0 };
         let r = catch_unwind(AssertUnwindSafe(|| d.sample(&mut rng)));
         let log = maybenot::verif::take();
         maybenot::verif::enable(false);
-        (r.ok(), log, rng.log, rng.total)
+        Some((r.ok(), log, rng.log, rng.total))
     });
+    let r = match r {
+        Outcome::Done(None) => {
+            // the property is about validated distributions only
+            let _ = writeln!(w, "o validate err");
+            let _ = writeln!(w, "o res skipped");
+            let _ = writeln!(w, "end");
+            return;
+        }
+        Outcome::Done(Some(x)) => {
+            let _ = writeln!(w, "o validate ok");
+            Outcome::Done(x)
+        }
+        Outcome::Panic => {
+            let _ = writeln!(w, "o validate ok");
+            Outcome::Panic
+        }
+        Outcome::Hang => {
+            let _ = writeln!(w, "o validate ok");
+            Outcome::Hang
+        }
+    };
     match r {
         Outcome::Done((ret, log, words, total)) => {
             let _ = writeln!(w, "o res {}", if ret.is_some() { "ok" } else { "panic" });
@@ -760,9 +795,14 @@ const PREFIXES: &[(&str, usize)] = &[
 
 fn gen_c13(seed: u64, rounds: u64, wd: u64, w: &mut dyn Write) {
     let mut p = Prng::new(seed ^ 0xc13);
+    // keep the corners validation admits; a validation that does not return is kept too, so that
+    // it is reported as a hang by `emit_c13` instead of stalling the generator
     let corners: Vec<(String, DistType)> = dist_corners()
         .into_iter()
-        .filter(|(_, dt)| Dist { dist: *dt, start: 0.0, max: 0.0 }.validate().is_ok())
+        .filter(|(_, dt)| {
+            let d = Dist { dist: *dt, start: 0.0, max: 0.0 };
+            !matches!(with_watchdog(wd, move || d.validate().is_ok()), Outcome::Done(false))
+        })
         .collect();
     let mut n = 0u64;
     for round in 0..rounds {
